@@ -12,7 +12,7 @@ fn fmt_stub2(_a: core::fmt::Arguments<'_>) -> String {
 }
 
 // @harness c08_fragment_retry
-// @props C08 C03
+// @props C08 C03 C12
 // @tier quick
 // @cost 150
 // @timeout 1500
